@@ -213,6 +213,9 @@ class BlockParser(Parser[BlockState]):
         sc = self.compile_sc(["thematic_break", "list"])
         m2 = sc.match(state.src, state.cursor)
         if m2:
+            if m2.lastgroup == "list" and state.depth() >= self.max_nested_level:
+                # no list beyond the nesting limit (the list rule itself is removed there)
+                return None
             return self.parse_method(m2, state)
         return None
 
